@@ -44,6 +44,11 @@ VARIANTS = {
     'versioned-project-model': 'select * from int1.t1 as t join proj.pred2.4 as m where {W}',
     'target-given-as-string': 'select * from int1.t1 as t join proj.pred3 as m where {W}',
     'target-given-as-list': 'select * from int1.t1 as t join proj.pred4 as m where {W}',
+    # the same under a catalog given in the legacy dict form {model name: record} (another branch of the planner's constructor)
+    'legacy-catalog:table-join-model': 'select * from int1.t1 as t join mindsdb.pred as m where {W}',
+    'legacy-catalog:using': 'select * from int1.t1 as t join mindsdb.pred as m where {W} using Opt1 = 1, m.opt2 = \'x\'',
+    'legacy-catalog:target-given-as-string': 'select * from int1.t1 as t join proj.pred3 as m where {W}',
+    'legacy-catalog:target-given-as-list': 'select * from int1.t1 as t join proj.pred4 as m where {W}',
     'model-between-tables': 'select * from int1.t1 as t join mindsdb.pred as m join int2.t2 as u on u.a = t.a '
                             'join int1.t3 as v on v.b = m.yy where {W}',
     'model-between-tables-2': 'select * from int1.t1 as t join int2.t2 as u on u.a = t.a join mindsdb.pred as m '
@@ -142,7 +147,7 @@ def _case(args):
     sql = VARIANTS[variant].replace('{WF}', render(w, True)).replace('{W}', render(w))
     out = {'sql': sql, 'variant': variant}
     try:
-        plan = plan_query(parse_sql(sql, 'mindsdb'), **plancorpus.catalog('dicts'))
+        plan = plan_query(parse_sql(sql, 'mindsdb'), **plancorpus.catalog('legacy-dict-targets' if variant.startswith('legacy-catalog:') else 'dicts'))
     except (PlanningException, NotImplementedError) as e:
         out['status'] = 'refused'
         return out
@@ -284,7 +289,7 @@ def run(ctx):
         if r.get('dataframe_kind') not in ('FetchDataframeStep', 'JoinStep', 'SubSelectStep', 'QueryStep'):
             ctx.violation('model-input:%s' % v, 'the model is not applied to the result of the data it is joined to',
                           {'sql': r['sql'], 'steps': r['kinds'], 'dataframe': r.get('dataframe')}, pin=(key, r.get('dataframe_kind')))
-        if v in ('using', 'using-dotted-keys'):
+        if v in ('using', 'using-dotted-keys', 'legacy-catalog:using'):
             want = {'opt1': 1, 'opt2': 'x'}
             if v == 'using-dotted-keys':
                 want.update({'engine.mode': 'fast', 'a.b.c.d': 2, 'm.m': 3})
